@@ -10,19 +10,27 @@ W=$V/.work/run.$$
 mkdir -p "$W" "$V/evidence"
 trap 'rm -rf "$W"' EXIT
 cd $V/harness || exit 2
+# The library under test is /repo. (VERIF_REPO names another checkout of it for diagnostic background runs only -
+# e.g. a long thorough run while /repo is being used to try seeded changes; nothing registered in MANIFEST.json sets it.)
+REPO=${VERIF_REPO:-/repo}
+MODFILE=""
+if [ "$REPO" != "/repo" ]; then
+  sed "s|=> /repo\$|=> $REPO|" go.mod > "$W/alt.mod"; cp go.sum "$W/alt.sum"
+  MODFILE="-modfile=$W/alt.mod"
+fi
 # 1. overlay (map-iteration seam, global table) regenerated from /repo's current tree
 POINTS=""
 if [ "$ID" = "C19" ]; then POINTS="-points"; fi
-if ! go run ./cmd/instr -repo /repo -out "$W/ov" -seam $V/harness/seamsrc $POINTS > "$W/instr.log" 2>&1; then
+if ! go run $MODFILE ./cmd/instr -repo "$REPO" -out "$W/ov" -seam $V/harness/seamsrc $POINTS > "$W/instr.log" 2>&1; then
   echo "HARNESS: instrumentation failed" >&2; cat "$W/instr.log" >&2; exit 2
 fi
 # 2. build the checker against /repo with hooks on
-if ! go build -tags verif -overlay "$W/ov/overlay.json" -o "$W/vcheck" ./cmd/vcheck > "$W/build.log" 2>&1; then
+if ! go build $MODFILE -tags verif -overlay "$W/ov/overlay.json" -o "$W/vcheck" ./cmd/vcheck > "$W/build.log" 2>&1; then
   echo "HARNESS: build failed" >&2; cat "$W/build.log" >&2; exit 2
 fi
 # 2b. C19 only: the supplementary free-running race-detector pass (separate binary, no hooks)
 if [ "$ID" = "C19" ] && [ "$MODE" != "replay" ]; then
-  if go build -race -o "$W/racepass" ./cmd/racepass > "$W/race.log" 2>&1; then
+  if go build $MODFILE -race -o "$W/racepass" ./cmd/racepass > "$W/race.log" 2>&1; then
     export VERIF_RACEPASS="$W/racepass"
   else
     echo "HARNESS: race pass build failed" >&2; cat "$W/race.log" >&2; exit 2
